@@ -250,4 +250,40 @@ Subst(t, sigma) ==
     [] t[1] = "rec"  ->
          Rec(t[2], [i \in DOMAIN t[3] |-> <<t[3][i][1], Subst(t[3][i][2], sigma)>>])
     [] OTHER -> t
+
+(***************************************************************************)
+(* The store: references 1..n, each DENOTING the value of its class.       *)
+(* Unify merges two classes (value = Meet); CloseRecord closes the record  *)
+(* a reference denotes - for every alias of it, whichever reference of the *)
+(* class it is called on; UnifyRecordField meets the class value with the  *)
+(* open record {f: v}.  st = [cls |-> representative of every reference,   *)
+(* val |-> value denoted by every reference].                              *)
+(*   op = <<"unify", i, j>> | <<"close", i>> | <<"field", i, f, v>>        *)
+(***************************************************************************)
+CloseTerm(t) == IF IsRec(t) THEN Rec("closed", t[3]) ELSE t
+
+StoreInit(ts) == [cls |-> [k \in DOMAIN ts |-> k], val |-> ts]
+ClassOf(st, i) == {k \in DOMAIN st.cls : st.cls[k] = st.cls[i]}
+SetClass(st, members, v) ==
+  LET rep == CHOOSE m \in members : \A k \in members : m <= k
+  IN [cls |-> [k \in DOMAIN st.cls |-> IF k \in members THEN rep ELSE st.cls[k]],
+      val |-> [k \in DOMAIN st.val |-> IF k \in members THEN v ELSE st.val[k]]]
+
+StoreApply(st, op) ==
+  CASE op[1] = "unify" ->
+         SetClass(st, ClassOf(st, op[2]) \cup ClassOf(st, op[3]),
+                  Meet(st.val[op[2]], st.val[op[3]]))
+    [] op[1] = "close" ->
+         SetClass(st, ClassOf(st, op[2]), CloseTerm(st.val[op[2]]))
+    [] op[1] = "field" ->
+         SetClass(st, ClassOf(st, op[2]),
+                  Meet(st.val[op[2]], Rec("open", <<<<op[3], op[4]>>>>)))
+
+StoreClash(st) == \E k \in DOMAIN st.val : IsBot(st.val[k])
+\* CloseRecord asserts that the reference denotes a record; nothing is claimed
+\* about calls made after a clash.
+OpEnabled(st, op) ==
+  /\ ~StoreClash(st)
+  /\ op[1] = "close" => IsRec(st.val[op[2]])
+  /\ op[1] = "unify" => op[2] # op[3]
 =============================================================================
